@@ -698,7 +698,7 @@ class Interp:
                 if g.terms and (old is None or cc < old):
                     f.ub[g.terms] = cc
             dying = set(diff.values()) | set(sub.keys())
-            f.drop_atoms(lambda a: a in dying)
+            f.project_out(lambda a: a in dying)
             abst.append(f)
         # combine
         rf = res.facts
